@@ -203,7 +203,9 @@ func pkgOf(full string) string {
 	return ""
 }
 
-func sameJSON(a, b any) bool { return len(core.Diff(map[string]any{"x": a}, map[string]any{"x": b})) == 0 }
+func sameJSON(a, b any) bool {
+	return len(core.Diff(map[string]any{"x": a}, map[string]any{"x": b})) == 0
+}
 
 // stripUnknown removes unknown fields at every level (JSON and text do not carry them).
 func stripUnknown(p any) any {
